@@ -85,6 +85,16 @@ Section Handlers.
   Proof. unfold refresh_grant. do 2 (break_goal; [exact I|]). qauth. qcrunch. Qed.
   Lemma cc_grant_quiet n now r : quiet (cc_grant w n now r).
   Proof. unfold cc_grant. break_goal; [exact I|]. qauth. qcrunch. Qed.
+  Lemma jwt_bearer_client_quiet cr : quiet (jwt_bearer_client w cr).
+  Proof.
+    unfold jwt_bearer_client. apply quiet_bind; [apply authenticated_quiet|]. intros [c|]; [exact I|].
+    destruct (_ && _)%bool; exact I.
+  Qed.
+  Lemma jwt_bearer_grant_quiet n now r : quiet (jwt_bearer_grant w n now r).
+  Proof.
+    unfold jwt_bearer_grant. break_goal; [exact I|].
+    apply quiet_bind; [apply jwt_bearer_client_quiet|]; intros [c|]; [|exact I]. qcrunch.
+  Qed.
   Lemma ciba_grant_quiet n now r : quiet (ciba_grant w n now r).
   Proof. unfold ciba_grant. break_goal; [exact I|]. qauth. qcrunch. Qed.
   Lemma notify_success_quiet n now a hg : quiet (notify_success w n now a hg).
@@ -262,7 +272,7 @@ Section Handlers.
     unfold handler. destruct o; try (apply rg_bind; [|intros; exact I]).
     - apply init_auth_rg. - apply continue_auth_rg. - apply push_auth_rg.
     - destruct g; try exact I; (apply rg_bind; [|intros; exact I]); apply quiet_rg.
-      + apply cc_grant_quiet. + apply code_grant_quiet. + apply refresh_grant_quiet. + apply ciba_grant_quiet.
+      + apply cc_grant_quiet. + apply code_grant_quiet. + apply refresh_grant_quiet. + apply jwt_bearer_grant_quiet. + apply ciba_grant_quiet.
     - apply quiet_rg, introspect_quiet. - apply quiet_rg, revoke_quiet. - apply quiet_rg, userinfo_quiet.
     - apply quiet_rg, token_info_quiet. - apply quiet_rg, token_info_req_quiet.
     - apply init_back_auth_rg. - apply quiet_rg, notify_success_quiet. - apply quiet_rg, notify_failure_quiet.
